@@ -205,6 +205,7 @@ def gffDel (g : Gff) (index : Int) : Except Err Gff :=
 /-- `GFFFile.append_directive(directive, *args)`; `text` is `directive + " " + " ".join(args)`. -/
 def gffAppendDirective (g : Gff) (directive text : Str) : Except Err Gff :=
   if startsWith "FASTA".toList directive then .error .notImplemented else
+  if g.idx.hasFasta then .error .notImplemented else      -- repaired: refused like `append`
   .ok ⟨g.lines ++ [('#' :: '#' :: text)],
        { g.idx with directives := g.idx.directives ++ [(text, g.lines.length)] }⟩
 
